@@ -330,10 +330,14 @@ impl<'a> MemberAttrs {
                 .map(ApplicableAttr::Field))
     }
 
+    // Same order of fallbacks as applicable_attr: validation has to look at the instruction expansion is going to use
     pub(crate) fn applicable_field_attr(&'a self, kind: &'a Kind, fallible: bool, container_ty: &TypePath) -> Option<&'a MemberAttr> {
         self.field_attr(kind, fallible, container_ty)
+            .or_else(|| if fallible { self.field_attr(kind, false, container_ty) } else { None })
             .or_else(|| if kind == &Kind::OwnedIntoExisting { self.field_attr(&Kind::OwnedInto, fallible, container_ty) } else { None })
+            .or_else(|| if kind == &Kind::OwnedIntoExisting && fallible { self.field_attr(&Kind::OwnedInto, false, container_ty) } else { None })
             .or_else(|| if kind == &Kind::RefIntoExisting { self.field_attr(&Kind::RefInto, fallible, container_ty) } else { None })
+            .or_else(|| if kind == &Kind::RefIntoExisting && fallible { self.field_attr(&Kind::RefInto, false, container_ty) } else { None })
     }
 
     pub(crate) fn child(&'a self, container_ty: &TypePath) -> Option<&ChildAttr>{
